@@ -68,6 +68,8 @@ pub struct WorldSpec {
     pub poll_cost_ns: u64,
     /// the main input files behave like pipes (`cmd | sqlgrep --stdin`, FIFOs): size 0 in metadata, not seekable
     pub pipe_inputs: bool,
+    /// the input files have been removed from their directory (link count 0) but are still open / still written
+    pub unlinked_inputs: bool,
     /// follow modes: the descriptor handed to the follower is positioned here first (an inherited descriptor such
     /// as redirected stdin need not be at byte 0)
     pub pre_seek: Option<u64>,
@@ -80,6 +82,9 @@ pub struct WorldSpec {
     /// Batch mode: the engine handed to FileExecutor has its joined table loaded already
     /// (`ExecutionEngine::with_executed_joined_table`, the constructor the Python wrapper uses); execute() loads it again
     pub preload_join: bool,
+    /// Batch mode: lines given to the engine through `ExecutionEngine::execute(line, default config)` before the
+    /// engine is handed to FileExecutor (a caller that worked off a backlog itself); their output is discarded
+    pub prefeed_lines: Vec<String>,
     /// index into `files` of an input whose every read fails with EIO
     pub unreadable_file: Option<usize>,
 }
@@ -107,11 +112,13 @@ impl WorldSpec {
             event_budget: 20_000,
             poll_cost_ns: 0,
             pipe_inputs: false,
+            unlinked_inputs: false,
             pre_seek: None,
             tz: None,
             env: Vec::new(),
             land_after_new: 0,
             preload_join: false,
+            prefeed_lines: Vec::new(),
             unreadable_file: None,
         }
     }
@@ -357,6 +364,10 @@ fn drive(spec: &WorldSpec, running: Arc<AtomicBool>) -> DriverOut {
                 } else {
                     ExecutionEngine::new(&tables, &statement)
                 };
+                let mut engine = engine;
+                for line in &spec.prefeed_lines {
+                    let _ = engine.execute(line.clone(), &ExecutionConfig::default());
+                }
                 let executor = FileExecutor::with_output_printer(running.clone(), files, display_options, SimPrinter, engine);
                 match executor {
                     Ok(mut executor) => {
@@ -557,6 +568,7 @@ pub fn run_world(spec: &WorldSpec) -> WorldResult {
                 }
                 let idx = world.add_file(path, data.clone());
                 world.files[idx].pipe = spec2.pipe_inputs;
+                world.files[idx].unlinked = spec2.unlinked_inputs;
             }
             for (path, data) in &spec2.extra_files {
                 world.add_file(path, data.clone());
